@@ -99,7 +99,8 @@ class _Tap(io.StringIO):
         self._which = which
 
     def write(self, s):
-        kernel.cur().ev('out', which=self._which, s=kernel.cur().world.norm(s), spawns=len(kernel.cur().spawns))
+        kernel.cur().ev('out', which=self._which, s=kernel.cur().world.norm(s), spawns=len(kernel.cur().spawns),
+                        trace=len(kernel.cur().trace))
         return super().write(s)
 
 
